@@ -112,6 +112,7 @@ class Ctx:
         self.prog = prog
         self.R = report
         self.tier = tier
+        self.thorough = tier == "thorough"
         self._evs = {}
 
     def evaluator(self, opaque=(), max_depth=6, field_prims=True, opaque_pred=None, extra_prims=None):
@@ -189,6 +190,28 @@ def run_property(pid, module, tier="quick", repo="/repo", replay=None, write_evi
         rc = 1
     elif R.errors:
         rc = 2
+    if tier == "thorough" and rc == 0 and not replay and os.environ.get("VERIF_NO_SENSITIVITY") != "1":
+        # Sensitivity pass: every declared variant of the analysed source (string edits, reverted fix commits, the
+        # confirmed seeded changes) is materialised in a scratch copy and analysed; the obligations must fire on the
+        # breaking ones and stay silent on the behaviour-preserving ones. Reported, never turned into a verdict on /repo.
+        from . import selftest
+        try:
+            res = selftest.run_all(pid, module, repo=repo)
+        except Exception as e:
+            res = []
+            R.advisories.append("sensitivity pass failed to run: %s: %s" % (type(e).__name__, e))
+        R.sensitivity = res
+        R.stat("variants_run", sum(1 for r in res if r["status"] != "skipped"))
+        R.stat("variants_as_expected", sum(1 for r in res if r["ok"] and r["status"] != "skipped"))
+        for r in res:
+            if not r["ok"]:
+                R.advisories.append("SENSITIVITY-MISMATCH variant=%r expected=%s got=%s" % (r["variant"], r["expect"], r["status"]))
+        for a in R.advisories:
+            if a.startswith("SENSITIVITY") or a.startswith("sensitivity"):
+                print("ADVISORY property=%s %s" % (pid, a))
+        print("%s sensitivity: %d variants analysed, %d as expected, %d skipped" % (
+            pid, sum(1 for r in res if r["status"] != "skipped"), sum(1 for r in res if r["ok"] and r["status"] != "skipped"),
+            sum(1 for r in res if r["status"] == "skipped")))
     wall = time.time() - t0
     if write_evidence and not replay:
         write_evidence_file(pid, R, tier, seed, wall, violations, module)
